@@ -113,4 +113,5 @@ func c39(r *core.Run) {
 			"a vector is constructed only when the byte slice holds l bits", "a path constructs a vector without the len(b)*8<l refusal")
 	}
 	c39more(r)
+	allSetCoverage(r, "C39.V1")
 }
